@@ -104,12 +104,15 @@ class OpsMixin:
         before_tasks = asyncio.all_tasks()
         snap = self.snapshot(pr)
         n_events = (len(req.invs), req.pulled)
-        self.ev("op_call", method, pr.idx, req.idx)
+        if expect and self.skip_rejected:
+            req.rejected = True
+            return None
+        self.ev("rej_call" if expect else "op_call", method, pr.idx, req.idx)
         busy = pr.L > 0
         try:
             name = call()
         except Exception as e:  # noqa: BLE001
-            self.ev("op_raise", method, pr.idx, req.idx, type(e).__name__)
+            self.ev("rej_raise" if expect else "op_raise", method, pr.idx, req.idx, type(e).__name__)
             self.note_op(method, "rejected:" + type(e).__name__ + (":busy" if busy else ""))
             req.accepted = False
             if not expect:
@@ -264,7 +267,9 @@ class OpsMixin:
     def op_ctor_neg(self, step, issuer):
         P = self.mods.pool
         v = step.get("v", -1)
-        self.ev("op_call", "ctor_neg", v)
+        if self.skip_rejected:
+            return
+        self.ev("rej_call", "ctor_neg", v)
         try:
             if step.get("cls", "T") == "T":
                 P.TaskPool(pool_size=v)
@@ -284,12 +289,15 @@ class OpsMixin:
         val = float("inf") if v is None else v
         self.refresh_created(pr)
         snap = self.snapshot(pr)
-        self.ev("op_call", "set_size", pr.idx, v, issuer[0])
+        neg = v is not None and v < 0
+        if neg and self.skip_rejected:
+            return
+        self.ev("rej_call" if neg else "op_call", "set_size", pr.idx, v, issuer[0])
         old = pr.size
         try:
             pr.obj.pool_size = val
         except ValueError:
-            self.ev("op_raise", "set_size", pr.idx, "ValueError")
+            self.ev("rej_raise" if neg else "op_raise", "set_size", pr.idx, "ValueError")
             if v is None or v >= 0:
                 self.violate("C15.negative", f"pool_size = {v} raised ValueError")
             elif self.snapshot(pr) != snap:
@@ -438,6 +446,7 @@ class OpsMixin:
         """Model effect of Task.cancel() reaching a task that the pool considers running."""
         it = self.issuer_task(issuer)
         t.cancel_ops += 1
+        t.vias.add(via)
         self.sit[f"cancel.{via}." + ("unbegun" if not t.begun else "pending" if t.pending else "self" if it is t else "live")] += 1
         if not t.begun:
             if not t.unbegun_cancelled:
@@ -521,6 +530,7 @@ class OpsMixin:
             return "unknown"
 
     def model_cancel_group(self, pr, name, rq, issuer):
+        pr.group_cancels += 1
         rq.cancelled_at = len(self.log)
         del pr.live_groups[name]
         pr.dead_groups.append(name)
@@ -643,9 +653,8 @@ class OpsMixin:
         try:
             got = pr.obj.stop_all() if allmode else pr.obj.stop(n)
         except Exception as e:  # noqa: BLE001
-            if unknown:
-                return
-            self.violate("C14.ids", f"stop({n}) raised {type(e).__name__}: {e}")
+            # stop() picks its victims among the running tasks itself, so it has no reason to raise - whatever their state
+            self.violate("C14.ids", f"stop({n}) raised {type(e).__name__}: {e} (running per model: {running}, cancelled before first step: {unknown})")
             return
         self.ev("op_ret", "stop", pr.idx, tuple(got))
         if unknown:
